@@ -370,7 +370,7 @@ func classifyMapRange(c *core.Ctx, s *mapRangeSite) (idiom string, bad string) {
 			if tv, ok := inf.Types[x.Fun]; ok && (tv.IsType() || tv.IsBuiltin()) {
 				return true
 			}
-			if f != nil && f.Name() == "AddKey" {
+			if f != nil && core.NameOf(f) == "AddKey" {
 				idioms["I1"] = true
 				return true
 			}
@@ -537,7 +537,7 @@ func runR092(c *core.Ctx) {
 		v.Inspect(func(fr *core.VFrame, n ast.Node) bool {
 			if call, ok := n.(*ast.CallExpr); ok && len(call.Args) >= 1 {
 				f := core.Callee(fr.Info, call)
-				if f != nil && f.Pkg() != nil && (f.Pkg().Path() == "sort" && (f.Name() == "Slice" || f.Name() == "SliceStable" || f.Name() == "Sort") || f.Pkg().Path() == "slices" && strings.HasPrefix(f.Name(), "Sort")) {
+				if f != nil && f.Pkg() != nil && (f.Pkg().Path() == "sort" && (core.NameOf(f) == "Slice" || core.NameOf(f) == "SliceStable" || core.NameOf(f) == "Sort") || f.Pkg().Path() == "slices" && strings.HasPrefix(f.Name(), "Sort")) {
 					if sortCall == nil {
 						sortCall, sortFrame = call, fr
 						sortedObj = v.ObjOf(fr.Info, call.Args[0])
@@ -607,7 +607,7 @@ func runR092(c *core.Ctx) {
 				return true
 			}
 			f := core.Callee(fr.Info, call)
-			isEmit := f != nil && (f.Name() == spec.emit || f.Name() == "DumpTo")
+			isEmit := f != nil && (f.Name() == spec.emit || core.NameOf(f) == "DumpTo")
 			if !isEmit {
 				return true
 			}
@@ -803,7 +803,7 @@ func elementwiseEqual(c *core.Ctx, inf *types.Info, fd *ast.FuncDecl) string {
 		if !ok || len(call.Args) != 1 {
 			return nil
 		}
-		if b, ok := core.ObjOf(inf, call.Fun).(*types.Builtin); !ok || b.Name() != "len" {
+		if b, ok := core.ObjOf(inf, call.Fun).(*types.Builtin); !ok || core.NameOf(b) != "len" {
 			return nil
 		}
 		if o := core.ObjOf(inf, call.Args[0]); isContainer(o) {
